@@ -201,6 +201,7 @@ class Inliner:
                     nb["t"] = {"k": "goto", "to": unw}
                 blocks.append(nb)
             if cont is not None and dst:
+                _CALLER_PROMOTED[0] = promoted
                 _thread_polarity(blocks, tgt, boff, base, cont, dst)
             inl_from.append(tgt["path"])
             inl_from.extend(tgt.get("inlined_from") or [])
@@ -296,6 +297,9 @@ def _continuation_pattern(blocks, cont, dst):
     return None
 
 
+_CALLER_PROMOTED = [None]
+
+
 def _thread_polarity(blocks, g, boff, base, cont, dst):
     """keep the correlation between *how* the inlined helper returns and what the caller's test of its result does next: returns that
     assign Ok / Some go on to the Continue side only, returns that assign Err / None (or propagate a residual) to the Break side only.
@@ -337,23 +341,73 @@ def _thread_polarity(blocks, g, boff, base, cont, dst):
             seen.add(x)
             st.extend(succ.get(x, []))
         return seen
-    # epilogue of a defining block: what follows it, provided the return place is not written again on the way
-    for p_ in ("ok", "err"):
-        xs = [i for i, q in pol.items() if q == p_]
-        if not xs:
+    # the payload of an Ok / Some return, when it is a constant fieldless variant of a workspace enum (`Ok(Outcome::Evicted)`): the
+    # caller's test of that value (`== Outcome::Evicted`) is decided per return site as well, one level below the Ok / Err polarity
+    var = {}
+    for i, q in pol.items():
+        if q != "ok":
             continue
-        epi = set()
-        good = []
-        for x in xs:
-            e = reach(succ[x])
-            if e & defs0 or not any(g["blocks"][y]["t"].get("k") == "return" for y in e):
+        blk = g["blocks"][i]["s"]
+        for s_ in blk:
+            if s_.get("d") == [0] and s_.get("k") == "agg" and s_.get("variant") in ("Ok", "Some") and len(s_.get("o", [])) == 1 and "p" in s_["o"][0] and len(s_["o"][0]["p"]) == 1:
+                src = s_["o"][0]["p"][0]
+                for s2 in blk:
+                    if s2.get("d") == [src] and s2.get("k") == "agg" and not s2.get("o") and s2.get("adt") and not s2["adt"].startswith(("core::", "alloc::", "std::")):
+                        var[i] = (s2["adt"], s2["variant"])
+    promoted = g.get("promoted") or []
+
+    def decided_target(tgt, adt_variant):
+        """tgt: block index in `blocks` reached on the Ok side.  If it compares the payload with a constant variant of the same enum
+        (`eq` / `ne` on a promoted constant) and switches on the outcome, a specialised copy that goes straight to the decided side."""
+        tb = blocks[tgt]
+        t = tb["t"]
+        if t.get("k") != "call" or t.get("callee", {}).get("name") not in ("eq", "ne") or "to" not in t or len(t.get("args", [])) != 2:
+            return None
+        # the constant operand: a local assigned from a promoted constant in this very block
+        const_variant = None
+        caller_promoted = _CALLER_PROMOTED[0] or []
+        for a_ in t["args"]:
+            if "p" not in a_:
                 continue
-            good.append(x)
-            epi |= e
-        if not good:
-            continue
+            # the argument, or what it is a reference to / copy of within this block
+            names, grew = {a_["p"][0]}, True
+            while grew:
+                grew = False
+                for s_ in tb["s"]:
+                    if s_.get("d") and s_["d"][0] in names and s_.get("k") in ("use", "ref", "cast") and s_.get("o") and "p" in s_["o"][0] and s_["o"][0]["p"][0] not in names:
+                        names.add(s_["o"][0]["p"][0])
+                        grew = True
+            for s_ in tb["s"]:
+                c_ = s_.get("o", [{}])[0].get("c") if s_.get("o") and isinstance(s_["o"][0], dict) else None
+                if s_.get("d") and s_["d"][0] in names and isinstance(c_, dict) and "promoted" in c_ and c_["promoted"] < len(caller_promoted):
+                    items = caller_promoted[c_["promoted"]]
+                    if len(items) == 1 and isinstance(items[0], dict) and items[0].get("agg") == adt_variant[0]:
+                        const_variant = items[0].get("variant")
+        if const_variant is None:
+            return None
+        nb = blocks[t["to"]]
+        nt = nb["t"]
+        if nt.get("k") != "switch" or "p" not in nt.get("discr", {}) or nt["discr"]["p"] != [t["dst"][0]] if t.get("dst") else True:
+            return None
+        same = adt_variant[1] == const_variant
+        val = int(same if t["callee"]["name"] == "eq" else not same)
+        nxt = None
+        for v_, b_ in nt["targets"]:
+            if v_ == val:
+                nxt = b_
+        if nxt is None:
+            nxt = nt["otherwise"]
+        c1 = copy.deepcopy(tb)
+        c1["s"] = c1["s"] + [{"d": [t["dst"][0]], "k": "use", "o": [{"c": {"ty": "bool", "int": val}}], "inl": "decided"}] + copy.deepcopy(nb["s"])
+        c1["t"] = {"k": "goto", "to": nxt, "inl": "threaded"}
+        blocks.append(c1)
+        return len(blocks) - 1
+
+    def thread_group(good, target):
+        epi = set()
+        for x in good:
+            epi |= reach(succ[x])
         # specialised continuation
-        target = pat[3] if p_ == "ok" else pat[4]
         if pat[0] == "q":
             c1 = copy.deepcopy(blocks[pat[1]])
             c2 = copy.deepcopy(blocks[pat[2]])
@@ -391,6 +445,32 @@ def _thread_polarity(blocks, g, boff, base, cont, dst):
                 tv = _get_succ(t, k)
                 if boff <= tv < boff + n and (tv - boff) in cmap:
                     _set_succ(t, k, cmap[tv - boff])
+
+    # epilogue of a defining block: what follows it, provided the return place is not written again on the way
+    for p_ in ("ok", "err"):
+        xs = [i for i, q in pol.items() if q == p_]
+        if not xs:
+            continue
+        good = []
+        for x in xs:
+            e = reach(succ[x])
+            if e & defs0 or not any(g["blocks"][y]["t"].get("k") == "return" for y in e):
+                continue
+            good.append(x)
+        if not good:
+            continue
+        target = pat[3] if p_ == "ok" else pat[4]
+        if p_ == "ok" and any(x in var for x in good):
+            # one continuation per constant payload (its test decided), one for the rest
+            groups = {}
+            for x in good:
+                groups.setdefault(var.get(x), []).append(x)
+            # (each group gets its own copy of its epilogue, so a return block shared by several sites is no obstacle)
+            for k, v in groups.items():
+                tgt = decided_target(target, k) if k is not None else None
+                thread_group(v, tgt if tgt is not None else target)
+            continue
+        thread_group(good, target)
 
 
 def apply(facts, deny=None):
